@@ -73,6 +73,7 @@ func (d *engDriver) SendProbe(ttl uint8) error {
 				return
 			}
 			d.queue = append(d.queue, r)
+			d.w.LogEvent("Due", "ttl", r.TTL, "dest", r.Dest, "ip", r.IP, "err", r.Err)
 			select {
 			case d.notify <- struct{}{}:
 			default:
